@@ -517,6 +517,19 @@ theorem C07_inter_ref_syntax_component (s s1 s2 s3 s4 : BP α) (amp op cp : Tok)
   rw [← ingredientP_cut hc hnote] at ht
   exact ⟨ht.2, (q4.pushed.trans ht.1).cast (by simp)⟩
 
+/-! non-vacuity: `@&()x{}` with COMPONENT_MODIFIERS and INTERMEDIATE_PREPARATIONS -/
+def C07_exInterEmpty : BP Rat :=
+  ⟨[⟨.at, ['@'], 0⟩, ⟨.and, ['&'], 1⟩, ⟨.openParen, ['('], 2⟩, ⟨.closeParen, [')'], 3⟩, ⟨.word, ['x'], 4⟩,
+    ⟨.openBrace, ['{'], 5⟩, ⟨.closeBrace, ['}'], 6⟩],
+    0, ⟨Gen.EXT_COMPONENT_MODIFIERS ||| Gen.EXT_INTERMEDIATE_PREPARATIONS⟩, toyCharSpec, #[], none⟩
+example : ∃ body note s1 s2 s3 s4,
+    Cut .at C07_exInterEmpty (⟨.and, ['&'], 1⟩ :: ⟨.openParen, ['('], 2⟩ :: ([] ++ [⟨.closeParen, [')'], 3⟩])) body s1 s2 s3 ∧
+    noteP s3 = (note, s4) ∧ body.quantity = none ∧
+    C07_exInterEmpty.ext.has Gen.EXT_INTERMEDIATE_PREPARATIONS = true ∧
+    C07_exInterEmpty.ext.has Gen.EXT_COMPONENT_ALIAS = false ∧
+    (buildText (curOff s2) body.name).isTextEmpty C07_exInterEmpty.cs = false :=
+  ⟨_, _, _, _, _, _, ⟨⟨_, rfl⟩, rfl, rfl⟩, rfl, rfl, rfl, rfl, rfl⟩
+
 /-- **Empty value.**  Value tokens that do not read as a number (or range) and whose text is blank
     (`@x{ %g}`): `parse_value` pushes exactly `empty-value` (error, parse) labelled with the span of
     that text, and returns a value located from the first token to the current offset. -/
